@@ -186,7 +186,7 @@ def corr_hurdle_iz(rng, k, corr, res):
     loc = rng.choice([0.0, 0.0, 0.5, 1.0, 0.25]) * unit
     scale = rng.choice([1.0, 2.0, 0.5, 4.0, 0.125]) * unit
     rand = rng.random() < 0.6
-    fit_kwds = rng.choice([{"floc": 0, "fscale": None}, {"floc": 0, "fscale": None}, None])
+    fit_kwds = rng.choice([{"floc": 0, "fscale": None}, {"floc": 0, "fscale": None}, None, {"floc": 0.5}, {"floc": 0}])
     dbl = make_double(loc, scale)
     tag = f"case {k} hurdle rand={rand} loc={loc} scale={scale}"
     model = M.gen_PrecipitationHurdleModel(distribution=dbl, fit_kwds=fit_kwds, cdf_randomization=rand)
@@ -528,12 +528,98 @@ def oracle_(nrng, problems, stats, k):
         stats["censored_checks"] += 1
 
 
+def oracle_extreme_fraction(nrng, problems, stats, k):
+    """long series with a dry fraction below 0.1 % or above 99.9 % (>= 5 wet values so that the gamma MLE is defined)"""
+    from ibicus.utils import _math_utils as M
+
+    n = int(nrng.choice([2000, 5000, 10950]))
+    shape, scale = float(nrng.choice([0.7, 1.0, 2.0])), float(nrng.choice([0.5, 2.0, 10.0, 4e-5]))
+    if nrng.uniform() < 0.5:
+        n_dry = int(nrng.integers(1, max(2, n // 1001)))  # almost always wet
+    else:
+        n_dry = n - int(nrng.integers(5, 9))  # almost always dry
+    data = np.concatenate([np.zeros(n_dry), nrng.gamma(shape, scale, size=n - n_dry)])
+    nrng.shuffle(data)
+    info = {"n": n, "n_dry": n_dry, "wet_values": data[data > 0][:12].tolist(), "gamma_shape": shape, "gamma_scale": scale, "numpy_seed_of_case": k, "generator": "extreme_fraction"}
+    for rand in (True, False):
+        model = M.gen_PrecipitationHurdleModel(cdf_randomization=rand)
+        sig = {"model": "hurdle", "cdf_randomization": rand, "dry_fraction": "extreme"}
+        np.random.seed(k)
+        fit = quiet(model.fit, data)
+        p0 = fit[0]
+        cdf = np.asarray(quiet(model.cdf, data, *fit), dtype=float)
+        back = np.asarray(quiet(model.ppf, cdf, *fit), dtype=float)
+        frac = n_dry / n
+        if abs(p0 - frac) > 1e-15:
+            problems.append((f"hurdle fit: p0 = {p0!r} but the observed fraction of zeros is {n_dry}/{n} = {frac!r}", info, {**sig, "law": "p0"}))
+        if np.any(cdf[data > 0] < frac - 1e-15) or np.any(cdf[data == 0] > frac + 1e-15):  # 1 - k/n vs (n-k)/n differ by an ulp
+            problems.append((f"hurdle ({n_dry} dry of {n}): a wet value receives a cdf value below / a dry value above the observed dry fraction {frac!r}", info, {**sig, "law": "wet_above_p0"}))
+        if np.any(back[data == 0] != 0):
+            problems.append((f"hurdle ({n_dry} dry of {n}): a dry value does not stay dry", info, {**sig, "law": "dry"}))
+        if not (np.all(cdf >= 0) and np.all(cdf <= 1)):
+            problems.append(("hurdle cdf outside [0,1]", info, {**sig, "law": "cdf_range"}))
+        F = scipy.stats.gamma.cdf(data, *fit[1])
+        m = (data > 0) & (F >= 1e-3) & (F <= 1 - 1e-3)
+        if np.any(np.abs(back[m] - data[m]) > 1e-6 * data[m]):  # (q - p0)/(1 - p0) amplifies rounding by 1/(1 - p0) <= 2200
+            problems.append((f"hurdle ({n_dry} dry of {n}): wet round trip fails (relative 1e-6)", info, {**sig, "law": "wet_roundtrip"}))
+        stats["extreme_fraction_checks"] += 1
+
+
+def oracle_fit_kwds(nrng, problems, stats, k):
+    """every model that takes fit_kwds, with scipy's gamma and fit_kwds in {None (free location), floc = 0, floc = c > 0
+    below the data minimum}; wet amounts >= 1 (a wet-day reporting threshold), so that a location matters"""
+    from ibicus.utils import _math_utils as M
+
+    n = int(nrng.integers(40, 150))
+    shape, scale = float(nrng.choice([1.0, 2.0, 4.0])), float(nrng.choice([1.0, 3.0, 8.0]))
+    wet = 1.0 + nrng.gamma(shape, scale, size=n)
+    z = nrng.uniform(size=n) < float(nrng.uniform(0.1, 0.8))
+    z[0], z[1:8] = True, False
+    data = np.where(z, 0.0, wet)
+    c = float(nrng.choice([0.25, 0.5, 0.9]))
+    for fk in (None, {"floc": 0}, {"floc": c}, {"floc": 0, "fscale": None}):
+        for kind in ("ignore_zeros", "hurdle", "hurdle_norand"):
+            if kind == "ignore_zeros":
+                model = M.gen_PrecipitationIgnoreZeroValuesModel(fit_kwds=fk)
+            else:
+                model = M.gen_PrecipitationHurdleModel(fit_kwds=fk, cdf_randomization=(kind == "hurdle"))
+            sig = {"model": kind, "fit_kwds": str(fk)}
+            info = {"data": data.tolist(), "fit_kwds": str(fk), "gamma_shape": shape, "gamma_scale": scale, "numpy_seed_of_case": k, "generator": "fit_kwds"}
+            np.random.seed(k)
+            fit = quiet(model.fit, data)
+            gfit = fit if kind == "ignore_zeros" else fit[1]
+            if fk is not None and "floc" in fk and gfit[1] != fk["floc"]:
+                problems.append((f"{kind}: fit_kwds {fk} not honoured, fitted location {gfit[1]}", info, {**sig, "law": "fit_kwds"}))
+            if not all(np.isfinite(gfit)) or gfit[1] >= data[data > 0].min():
+                stats["fit_kwds_degenerate_fit_skipped"] += 1
+                continue
+            cdf = np.asarray(quiet(model.cdf, data, *fit), dtype=float)
+            back = np.asarray(quiet(model.ppf, cdf, *fit), dtype=float)
+            dry, wetm = data == 0, data > 0
+            if np.any(back[dry] != 0):
+                problems.append((f"{kind} (fit_kwds={fk}): a dry value does not stay dry", info, {**sig, "law": "dry"}))
+            fin = cdf[wetm]
+            if not (np.all(fin >= 0) and np.all(fin <= 1)):
+                problems.append((f"{kind} (fit_kwds={fk}): wet cdf outside [0,1]", info, {**sig, "law": "cdf_range"}))
+            F = scipy.stats.gamma.cdf(data, *gfit)
+            m = wetm & (F >= 1e-4) & (F <= 1 - 1e-4)
+            stats["fit_kwds_roundtrip_values"] += int(m.sum())
+            if np.any(np.abs(back[m] - data[m]) > 1e-9 * data[m]):
+                i = np.where(m)[0][np.argmax(np.abs(back[m] - data[m]) / data[m])]
+                problems.append((f"{kind} (scipy gamma, fit_kwds={fk}, fitted (shape, loc, scale) = {tuple(float(g) for g in gfit)}): ppf(cdf(x)) != x for a wet value: "
+                                 f"x = {data[i]!r} comes back as {back[i]!r}", info, {**sig, "law": "wet_roundtrip"}))
+            if kind != "ignore_zeros" and abs(fit[0] - dry.sum() / n) > 1e-15:
+                problems.append((f"{kind} (fit_kwds={fk}): p0 = {fit[0]}, observed fraction of zeros {int(dry.sum())}/{n}", info, {**sig, "law": "p0"}))
+            stats["fit_kwds_checks"] += 1
+
+
 # ------------------------------------------------------------------ the check
 def run(tier, res, force_search=False):
     rng = random.Random(C.seed() * 15485863 + 17)
     res.rule = ("correspondence cases = (zero-inflated dyadic sample of size 2..14 with a dry fraction in (0,1), in mm/day or flux units (x 2^-20, 2^-34), float64 or float32, "
                 "model type, options, family loc/scale, threshold) from one PRNG (VERIF_SEED); oracle cases = zero-inflated gamma samples (shape 0.4..5, scale 1e-9..40 "
-                "(mm/day and kg m-2 s-1), dry fraction 0.05..0.95, n 20..120), each also as float32; "
+                "(mm/day and kg m-2 s-1), dry fraction 0.05..0.95, n 20..120), each also as float32; plus long series (n 2000..10950) with a dry fraction < 0.1 % or > 99.9 %, and samples with wet amounts >= 1 "
+                "run with fit_kwds None / floc=0 / floc=c>0; "
                 "distinct = distinct (model, n, #dry, options) classes; every case is non-trivial (both dry and wet values)")
     res.trusted = C.BASE_TRUSTED + [
         "the amounts distribution is a parameter: theorems hold for every family satisfying Lemmas.Precip.AmountLaws (proved for the rational test double, assumed for scipy's gamma and other rv_continuous families)",
@@ -566,6 +652,16 @@ def run(tier, res, force_search=False):
         seed_k = C.seed() * 100003 + k
         oracle(np.random.default_rng(seed_k), problems, stats, seed_k)
         res.count(("oracle", k % 7), True)
+    n_ext = (6 if tier == "quick" else 40) * (3 if (force_search or not lean_ok or corr.mismatches) else 1)
+    for k in range(n_ext):
+        for fn, off in ((oracle_extreme_fraction, 7000000), (oracle_fit_kwds, 9000000)):
+            seed_k = C.seed() * 100003 + off + k
+            try:
+                fn(np.random.default_rng(seed_k), problems, stats, seed_k)
+            except Exception as ex:  # noqa: BLE001
+                problems.append((f"a precipitation model raises {type(ex).__name__}: {str(ex)[:150]} ({fn.__name__}, case seed {seed_k})",
+                                 {"numpy_seed_of_case": seed_k, "generator": fn.__name__}, {"law": "exception", "exception": type(ex).__name__, "in": fn.__name__}))
+            res.count((fn.__name__, k % 5), True)
     res.extra["oracle_stats"] = dict(stats)
     res.extra["ties_accepted"] = int(stats.get("ties_accepted_at_threshold", 0))
 
@@ -590,7 +686,9 @@ def replay(data):
         return 1
     problems, stats = [], collections.Counter()
     k = int(fi["numpy_seed_of_case"])
-    oracle(np.random.default_rng(k), problems, stats, k)
+    gen = {"extreme_fraction": oracle_extreme_fraction, "oracle_extreme_fraction": oracle_extreme_fraction,
+           "fit_kwds": oracle_fit_kwds, "oracle_fit_kwds": oracle_fit_kwds}.get(fi.get("generator"), oracle)
+    gen(np.random.default_rng(k), problems, stats, k)
     want = data.get("signature", {})
     hits = [p for p in problems if all(p[2].get(a) == b for a, b in want.items())]
     for desc, _, sig in hits:
